@@ -350,6 +350,28 @@ def install(ip):
       tot = ip.binop(_ast.Add(), tot, x)
     return tot
 
+  def _fold(ip, v, is_any):
+    parts = []
+    for x in ip.iter_concrete(v):
+      t = ip.truth(x)
+      if isinstance(t, bool):
+        if t == is_any:
+          return is_any
+        continue
+      parts.append(t)
+    if not parts:
+      return not is_any
+    return z3.Or(*parts) if is_any else z3.And(*parts)
+
+  @reg('any')
+  def _any(ip, args, kw):
+    # (element expressions are evaluated eagerly: they are assumed to be free of side effects)
+    return _fold(ip, args[0], True)
+
+  @reg('all')
+  def _all(ip, args, kw):
+    return _fold(ip, args[0], False)
+
   @reg('sorted')
   def _sorted(ip, args, kw):
     v = args[0]
